@@ -46,6 +46,29 @@ pub fn debug(args: &[String]) {
     match args.first().map(|s| s.as_str()) {
         Some("gen") => norm::debug_gen(args),
         Some("fmt") => norm::debug_fmt(args),
+        Some("lspfix") => {
+            // vcheck debug lspfix <replay.json>: replay the LSP fixpoint path of a C02 replay file
+            crate::mon::install_panic_recorder();
+            let d: serde_json::Value = serde_json::from_str(&std::fs::read_to_string(&args[1]).unwrap()).unwrap();
+            let lib: std::collections::BTreeMap<String, String> = serde_json::from_value(d["replay"]["library"].clone()).unwrap();
+            let ext = d["replay"]["refs_extension"].as_str().unwrap_or("").to_string();
+            let out1 = norm::export_lib(&lib, &ext);
+            let mut s = crate::lsp::Server::start_mem(&lib, &ext);
+            for (k, w) in &out1 {
+                s.did_change(k, w);
+            }
+            for (k, w) in &out1 {
+                let o = s.formatting(k);
+                match &o {
+                    crate::lsp::Outcome::Result(v) => println!("{} -> result, equal={}", k, v[0]["newText"].as_str() == Some(w.as_str())),
+                    other => println!("{} -> {:?}", k, other),
+                }
+            }
+            for p in crate::mon::drain_thread_panics() {
+                println!("PANIC {}:{} {}", p.file, p.line, p.message.chars().take(200).collect::<String>());
+            }
+            println!("{:?}", crate::lsp::events_since(0).iter().filter(|e| matches!(e, crate::lsp::Ev::LoopPanicked(_))).collect::<Vec<_>>());
+        }
         Some("case") => {
             // vcheck debug case <Cxx> <tier> <seed> <case>: run one case in-process and print the report
             let c = find(&args[1]).unwrap();
